@@ -2,6 +2,10 @@ package sse
 
 import (
 	"bufio"
+	"errors"
+	"io"
+	"net/http"
+	"net/url"
 	"time"
 )
 
@@ -127,4 +131,49 @@ func vhC20Conn() {
 	}
 	o.err = c.read(r, func(time.Duration) {})
 	vhC20Check("C20/Conn", stream, eff, o.events, o.err, r.nread, true)
+}
+
+// The limit also bounds what a whole connection attempt pulls from the response body:
+// Connect against a scripted transport whose body never completes an event.
+type vhCountingBody struct {
+	data   []byte
+	pos    int
+	closed bool
+}
+
+func (b *vhCountingBody) Read(p []byte) (int, error) {
+	if b.pos >= len(b.data) {
+		return 0, io.EOF
+	}
+	n := copy(p, b.data[b.pos:])
+	b.pos += n
+	return n, nil
+}
+func (b *vhCountingBody) Close() error { b.closed = true; return nil }
+
+type vhOneShotTransport struct{ body *vhCountingBody }
+
+func (t vhOneShotTransport) RoundTrip(*http.Request) (*http.Response, error) {
+	return &http.Response{StatusCode: 200, Header: http.Header{}, Body: t.body}, nil
+}
+
+func vhC20Connect() {
+	lim := verifParam("L", 4)
+	body := &vhCountingBody{data: []byte("data: this line never ends and is far longer than the limit")}
+	cl := &Client{
+		HTTPClient:        &http.Client{Transport: vhOneShotTransport{body}},
+		Backoff:           Backoff{MaxRetries: -1},
+		ResponseValidator: NoopValidator,
+	}
+	req := &http.Request{Method: "GET", URL: &url.URL{Scheme: "http", Host: "verif.invalid", Path: "/"}, Header: http.Header{}}
+	c := cl.NewConnection(req)
+	c.Buffer(nil, lim)
+	n := 0
+	c.SubscribeToAll(func(Event) { n++ })
+	err := c.Connect()
+	var ce *ConnectionError
+	verifAssert(errors.As(err, &ce) && ce.Err == bufio.ErrTooLong, "C20/Connect/oversized-event-ends-the-attempt-with-ErrTooLong")
+	verifAssert(n == 0, "C20/Connect/no-partial-event-delivered")
+	verifAssert(body.pos <= lim, "C20/Connect/reads-at-most-the-limit-before-reporting")
+	verifAssert(body.closed, "C20/Connect/body-closed")
 }
